@@ -16,10 +16,11 @@ from harness.pipeline import S
 PROPERTY = "C01"
 
 ADD = pl.Shape("@addRegion", (), tag="addRegion")
+REPLACE = pl.Shape("@replaceRegion", (), tag="replaceRegion")
 
 ALPHABET = {
     "moves": [S("G1", "X# Y#"), S("G1", "X# Y# E#"), S("G0", "X#"), S("G1", "Y#"), S("G1", "Z#"),
-              S("G1", "X# Y# Z# E#"), S("G1", "E#"), ADD],
+              S("G1", "X# Y# Z# E#"), S("G1", "E#"), ADD, REPLACE],
     "retract": [S("G1", "X# Y#"), S("G1", "X# Y# E#"), S("G1", "E#"), S("G10", ""), S("G11", ""),
                 S("G92", "E#"), S("G1", "Y# E#")],
     "modes": [S("G1", "X# Y#"), S("G1", "X#"), S("G1", "Y# E#"), S("G90"), S("G91"), S("G20"), S("G21"),
@@ -43,10 +44,11 @@ def scen(w, template="moves,moves", R=1, kinds="rd"):
     names = template.split(",")
     K = len(names)
     g90e = w.flag("g90e") if ("modes" in names or "retract" in names) else False
-    pipe = pl.Pipe(w, g90e, extended={"G4": "exclude", "M204": "merge", "M117": "last"})
+    pipe = pl.Pipe(w, g90e, extended={"G4": "exclude", "M204": "merge", "M117": "last"},
+                   enter=["M300 S440"], exit_=["M300 S880"])
     kinds = [("rect" if (kinds == "r" or (kinds == "rd" and w.choose(2, "rkind%d" % i) == 0)) else "disc")
              for i in range(R + 1)]
-    nreg = w.choose(R, "nregions") + 1
+    nreg = w.choose(R + 1, "nregions")      # possibly none yet: the first region is then drawn in mid-print
     for i in range(nreg):
         pipe.add_region(pl.fresh_region(w, kinds[i], "r%d" % i))
     pipe.prologue()
@@ -61,6 +63,15 @@ def scen(w, template="moves,moves", R=1, kinds="rd"):
                 pl.skip(w, "second addRegion")
             added = True
             pipe.add_region(pl.fresh_region(w, kinds[R], "radd"))
+            continue
+        if shape is REPLACE:
+            # the user redraws region r0 (API update; shrinking allowed): new arbitrary geometry, same id
+            if not pipe.regions or pipe.regions[0].id != "r0":
+                pl.skip(w, "no region r0 to replace")
+            new = pl.fresh_region(w, pipe.regions[0].kind, "r0")
+            new.params = tuple(w.real("rep%d_%d" % (k, i)) for i in range(len(new.params)))
+            pipe.regions[0] = new
+            pipe.state.replaceRegion(new.build(w.env), False)
             continue
         text, code = pl.next_text(w, pipe, shape)
         rec = pipe.begin(text)
